@@ -17,7 +17,7 @@ ID = "C20"
 LEVEL = "fault_enumeration"
 RULE = (
     "Hypothesis draws a baseline run in which every kind of user callable is present (objective, gradient [callable or finite differences], callback, identity update function, "
-    "gradient scaler, callable ftarget and gtol) and an exception type from {custom Exception, ValueError, TypeError, IndexError, AssertionError, ZeroDivisionError, FloatingPointError, "
+    "gradient scaler, callable ftarget and gtol; every iprint level with and without a logger) and an exception type from {custom Exception, ValueError, TypeError, IndexError, AssertionError, ZeroDivisionError, FloatingPointError, "
     "StopIteration, KeyError, RuntimeError} -- a superset of the types the code catches anywhere. The baseline's call counts define the injection points: quick = up to 12 drawn indices per kind, "
     "thorough = every index. Oracle: the very exception instance (same type, same message) reaches the caller, and an identical fault-free call made afterwards is bit-identical to the baseline "
     "computed before any fault. non-trivial = the fault index lies inside the main loop (not the first evaluation) or the kind is ftarget/gtol (handlers nearby); distinct = (run, kind, index, type)"
@@ -35,8 +35,22 @@ KINDS = ("fun", "jac", "callback", "update", "scaler", "ftarget", "gtol")
 FIELDS = ("x", "fun", "jac", "nfev", "njev", "nit", "sk", "yk", "message", "success", "status")
 
 
+def _null_logger():
+    import logging
+
+    lg = logging.getLogger("vf-c20-null")
+    lg.handlers[:] = [logging.NullHandler()]
+    lg.propagate = False
+    lg.setLevel(logging.INFO)
+    return lg
+
+
 def call_full(prob, rspec, fault=None):
-    return execute(rspec, prob=prob, update_fun_def="identity", fault=fault)
+    over = {}
+    if rspec.get("iprint") is not None:
+        # logging branches are code paths too: an exception must cross them unchanged
+        over["cfg_over"] = {"iprint": rspec["iprint"], "logger": _null_logger() if rspec.get("with_logger") else None}
+    return execute(rspec, prob=prob, update_fun_def="identity", fault=fault, **over)
 
 
 def counts(tr):
@@ -115,6 +129,8 @@ def strategy(draw, all_indices=False):
     r["ftarget"] = {"kind": "callable", "rel": draw(st.sampled_from([0.5, 0.9, 1.5, 3.0]))}
     r["gtol_callable"] = True
     r["callback"] = "passive"
+    r["iprint"] = draw(st.sampled_from([None, None, -1, 0, 1, 99, 100, 101]))
+    r["with_logger"] = draw(st.booleans())
     idx = "all" if all_indices else draw(st.lists(st.integers(0, 99).map(lambda k: k / 100.0), min_size=3, max_size=12))
     types = draw(st.lists(st.sampled_from(sorted(EXC_TYPES)), min_size=3, max_size=6))
     return {"run": r, "indices": idx, "types": types, "fresh_process": draw(st.integers(0, 29)) == 0}
